@@ -13,8 +13,8 @@ from ._pairs import V
 
 PID = "C10"
 LEVEL = "model_checking"
-WITNESSES = ["alone_run", "hash_seed_variant", "sequence_pair", "sequence_triple", "construct_then_run", "same_config_twice", "pool_batch"]
-NONTRIVIAL = ["hash_seed_variant", "sequence_pair", "sequence_triple", "construct_then_run", "same_config_twice", "pool_batch"]
+WITNESSES = ["alone_run", "hash_seed_variant", "sequence_pair", "sequence_triple", "construct_then_run", "same_config_twice", "pool_batch", "interleaved_pair"]
+NONTRIVIAL = ["hash_seed_variant", "sequence_pair", "sequence_triple", "construct_then_run", "same_config_twice", "pool_batch", "interleaved_pair"]
 
 
 def q_specs():
@@ -51,6 +51,12 @@ def scenarios(tier, seed=0):
     if tier != "quick":
         for a, b, c in itertools.product(names, names, names):
             yield {"kind": "seq", "ops": [["run", a], ["init" if (names.index(a) + names.index(b)) % 2 else "run", b], ["run", c]], "hashseed": 4242 if names.index(c) % 2 else 0}
+    # two live instances stepped alternately (every ordered pair; chunk sizes 1/1, and 3/2, 7/1 in the thorough tier)
+    for a, b in itertools.product(names, names):
+        for chunks in ([[1, 1]] if tier == "quick" else [[1, 1], [3, 2], [7, 1]]):
+            if tier == "quick" and (names.index(a) + names.index(b)) % 2:
+                continue
+            yield {"kind": "interleave", "names": [a, b], "chunks": chunks, "hashseed": 0}
     for size in ([1, 4] if tier == "quick" else [1, 4, 16]):
         yield {"kind": "pool", "size": size, "hashseed": 0}
 
@@ -120,6 +126,20 @@ def run(scn):
             hit("construct_then_run")
         if len({n for _, n in scn["ops"]}) < len(scn["ops"]):
             hit("same_config_twice")
+    elif scn["kind"] == "interleave":
+        r = iso([["interleave", {"specs": [Q[n] for n in scn["names"]], "chunks": scn["chunks"]}]], scn["hashseed"])
+        res["evals"] = 2
+        if r["errors"]:
+            res["aborted"] = r["errors"][0]
+            res["violations"].append(V("interleaved-stepping-raises", None, r["errors"][0], "no exception", names=scn["names"], sig=["raise-interleave", r["errors"][0].get("exc_origin")]))
+        else:
+            for n, dg in zip(scn["names"], r["digests"][0]):
+                if dg != baseline(n, Q):
+                    res["violations"].append(V("interleaved-instances-are-isolated", None, {"names": scn["names"], "chunks": scn["chunks"], "config": n, "digest": dg}, {"alone": baseline(n, Q)}, config=n, sig=["interleave", n]))
+                    break
+        if r["changed"]:
+            res["violations"].append(V("process-global-state-unchanged", None, r["changed"], "no change of module-level state / defaults", names=scn["names"], sig=["globals", r["changed"][0]["keys"][:2]]))
+        hit("interleaved_pair")
     elif scn["kind"] == "pool":
         names = list(Q)
         specs = [Q[n] for n in names] * 2
@@ -153,7 +173,7 @@ def describe(tier):
         "rule": "a set Q of 8 configurations touching every process-global named in the anchors (catalogue crop, keyword overrides, default thickness list, "
                 "profile deepening, default InitialWaterContent/GroundWater lists, water table, constant CO2, dated schedule, bunds+net irrigation); each alone in a "
                 "fresh interpreter under PYTHONHASHSEED {0,1,4242,VERIF_SEED}; ALL ordered pairs (run A, run B) and (construct A, run B)"
-                + ("" if tier == "quick" else "; ALL ordered triples (run/init/run)") + "; the batch under pool sizes {1,4" + ("" if tier == "quick" else ",16") + "}. Oracle: SHA-256 of "
+                + ("" if tier == "quick" else "; ALL ordered triples (run/init/run)") + "; two live instances of every ordered pair stepped ALTERNATELY in one process (chunk sizes 1/1" + ("" if tier == "quick" else ", 3/2, 7/1") + "); the batch under pool sizes {1,4" + ("" if tier == "quick" else ",16") + "}. Oracle: SHA-256 of "
                 "the raw bytes of all four tables = digest of the configuration run alone; a global-state monitor hashes every non-callable module-level object, "
                 "class attribute and default-argument tuple of aquacrop.* and numpy.geterr() after every operation: it must never change (fix-point => isolation for "
                 "histories of any length). Every sequence runs in its own fresh interpreter.",
